@@ -201,3 +201,15 @@ package dawn
 //@   noeffects fswrite
 //@ func (*dawn.sourceFile).upToDate variant effects
 //@   noeffects fswrite
+
+// C13, inductive step: whether a target reports `evaluating` is decided (callsites skip-sound /
+// not-skippable) by  always, depsUpToDate, upToDate, Rerun  only - never by dryrun - and in both
+// kinds of run a target that reaches `evaluating` and succeeds has changed == true
+// (dry-changed / changed-on-success), which is the only thing dependents read.
+//@ lemma C13-predict int <<<
+//@ (declare-const always Bool) (declare-const depsUTD Bool) (declare-const utd Bool) (declare-const rerun Bool)
+//@ (declare-const evalDry Bool) (declare-const evalReal Bool)
+//@ (assert (= evalDry  (or always (not depsUTD) (not utd) rerun)))   ; skip-sound + not-skippable, dry run
+//@ (assert (= evalReal (or always (not depsUTD) (not utd) rerun)))   ; the same callsites, real run
+//@ (assert (not (= evalDry evalReal)))
+//@ >>>
